@@ -105,7 +105,7 @@ func (fx *fnExec) callStatic(callee *ssa.Function, args []Val, bindings []Val, s
 		v, _ := ex.runFunc(callee, fx.materializeArgs(args), nil, st.clone(), false, c)
 		return v
 	}
-	if c != nil && !c.Inline && !c.Lemma && !(inlineAll && !c.Trusted && callee.Blocks != nil && inRepo(callee)) {
+	if c != nil && !c.Inline && !c.Lemma && !fx.ex.useBody(callee) && !(inlineAll && !c.Trusted && callee.Blocks != nil && inRepo(callee)) {
 		if c.Trusted {
 			ex.TrustedUsed["contract:"+name] = true
 		} else {
@@ -117,7 +117,7 @@ func (fx *fnExec) callStatic(callee *ssa.Function, args []Val, bindings []Val, s
 		return fx.opaqueCall(name, callee, args, st, rt)
 	}
 	path := pkgPathOf(callee)
-	inl := (c != nil && c.Inline) || inlinePkgs[path] || callee.Parent() != nil || bindings != nil || (inlineAll && inRepo(callee))
+	inl := (c != nil && c.Inline) || inlinePkgs[path] || callee.Parent() != nil || bindings != nil || (inlineAll && inRepo(callee)) || ex.useBody(callee)
 	if !inl && inRepo(callee) {
 		// same-module callee without contract: inline when small and loop-free
 		if !hasLoops(callee) && len(callee.Blocks) <= 40 {
@@ -129,6 +129,12 @@ func (fx *fnExec) callStatic(callee *ssa.Function, args []Val, bindings []Val, s
 	if inl {
 		ex.Inlined[name] = true
 		// interior pointers may be passed to inlined callees
+		if c != nil && (ex.useBody(callee) || inlineAll) {
+			// executing the body for evaluation/search: loops are unrolled, not cut at invariants
+			tmp := *c
+			tmp.Loops = map[int]*LoopSpec{}
+			c = &tmp
+		}
 		v, out := ex.runFunc(callee, args, bindings, st, false, c)
 		*st = *out
 		return v
